@@ -9,7 +9,8 @@
 (*                                                                         *)
 (* A network is a record                                                    *)
 (*   [gumbel, hard0 : BOOLEAN,                                              *)
-(*    fixed  : [par, ops],               \* layers outside choice blocks    *)
+(*    fixedl : Seq([name, par, ops]),    \* layers outside choice blocks    *)
+(*    names  : Seq(name),                \* qualified name of every block   *)
 (*    blocks : Seq([kinds : Seq(Kinds), uses : 1..2, pool : BOOLEAN,        *)
 (*                  ct : Seq([par, ops : Seq(Nat), uops : Seq(Nat),         *)
 (*                            leafs, reuse])])]                             *)
@@ -73,18 +74,20 @@ FirstArgMax(a) == MinOf(ArgMaxSet(a))          \* what torch.argmax returns on t
 (* Export.  Result per block: the branch that replaces the block, or -1 if  *)
 (* the export fails.                                                        *)
 (*  "ref" : the branch with the largest coefficient.                        *)
-(*  "asis": transcription of export_graph of the pinned tree: the inputs of *)
+(*  "pinned": transcription of export_graph of the pinned tree: the inputs  *)
 (*          the combiner are scanned in argument order; an input whose      *)
 (*          target string contains 'sn_branches.<best>' takes over the uses *)
 (*          of the combiner (the first such input takes them all), every    *)
 (*          other input is erased; if no input matches, the combiner still  *)
 (*          has users when it is erased -> RuntimeError.                    *)
 (***************************************************************************)
-AsisBranch(blk, w) ==
+PinnedBranch(blk, w) ==
     LET M == {i \in Br(blk) : ModuleTail(blk.kinds[i + 1]) /\ NameMatches(w, i)}
     IN  IF M = {} THEN -1 ELSE MinOf(M)
 
-ExportBranch(impl, blk, w) == IF impl = "ref" THEN w ELSE AsisBranch(blk, w)
+\* "pinned": export_graph before plinio commit 3afbd30 (name-substring matching, text above);
+\* "asis" (current code: the combiner's argument list is indexed by position) and "ref" coincide.
+ExportBranch(impl, blk, w) == IF impl = "pinned" THEN PinnedBranch(blk, w) ELSE w
 Export(impl, net, win) == [b \in 1..NB(net) |-> ExportBranch(impl, net.blocks[b], win[b])]
 ExportFails(e) == \E b \in DOMAIN e : e[b] = -1
 
@@ -115,7 +118,10 @@ BranchCost(impl, metric, blk, i) ==            \* i : 1-based position
 BlockMix(impl, metric, blk, th) ==
     SumIdx([i \in 1..NBr(blk) |-> th[i] * BranchCost(impl, metric, blk, i)], NBr(blk))
 
-FixedCost(metric, net) == IF Shared(metric) THEN net.fixed.par ELSE net.fixed.ops
+LayerCost(metric, l) == IF Shared(metric) THEN l.par ELSE l.ops
+\* cost of ALL the layers outside choice blocks, whatever their names
+FixedCost(metric, net) ==
+    SumIdx([k \in 1..Len(net.fixedl) |-> LayerCost(metric, net.fixedl[k])], Len(net.fixedl))
 
 Mix(impl, metric, net, theta, full, D) ==
     SumIdx([b \in 1..NB(net) |-> BlockMix(impl, metric, net.blocks[b], theta[b])], NB(net))
@@ -187,6 +193,78 @@ Prod(sets, k) == IF k = 0 THEN {<<>>}
                  ELSE {Append(p, x) : p \in Prod(sets, k - 1), x \in sets[k]}
 
 (***************************************************************************)
+(* Names.  A qualified module name is a sequence of characters, e.g.        *)
+(* <<"c","1">>, <<"c","1","0">>, <<"f",".","1","0">>.  Whether a leaf layer  *)
+(* is charged at top level (full_cost) must depend on the STRUCTURE (it is   *)
+(* outside every choice block), never on what its name looks like.           *)
+(* Inside(impl, ...) = "the code treats the layer as internal to a block":   *)
+(*  "asis"      'sn_branches' in str(node.target)        (current code)      *)
+(*  "prefixdot" name.startswith(block + '.') for some block   (also correct) *)
+(*  "prefix"    name.startswith(block)  - no trailing dot     (defective)    *)
+(*  "sn"        'sn_' in name                                 (defective)    *)
+(*  "leafset"   last atom of the name is the last atom of some block-internal *)
+(*              layer (a set built from leaf names)           (defective)    *)
+(***************************************************************************)
+DOT == "."
+RES == <<"s","n","_","b","r","a","n","c","h","e","s">>      \* the reserved attribute name
+SNU == <<"s","n","_">>
+HasSub(s, sub) == \E k \in 1..(Len(s) - Len(sub) + 1) : SubSeq(s, k, k + Len(sub) - 1) = sub
+LastDot(s) == IF \E k \in 1..Len(s) : s[k] = DOT THEN MaxOf({k \in 1..Len(s) : s[k] = DOT}) ELSE 0
+LastAtom(s) == SubSeq(s, LastDot(s) + 1, Len(s))
+
+Inside(impl, bnames, internals, lname) ==
+    CASE impl = "asis"      -> HasSub(lname, RES)
+      [] impl = "prefixdot" -> \E b \in 1..Len(bnames) : IsPrefix(bnames[b] \o <<DOT>>, lname)
+      [] impl = "prefix"    -> \E b \in 1..Len(bnames) : IsPrefix(bnames[b], lname)
+      [] impl = "sn"        -> HasSub(lname, SNU)
+      [] impl = "leafset"   -> LastAtom(lname) \in {LastAtom(x) : x \in internals}
+
+\* scenario predicates
+PrefixCollision(bnames, fnames) ==          \* a fixed layer's name starts like a block's name
+    \E b \in 1..Len(bnames) : \E k \in 1..Len(fnames) : IsPrefix(bnames[b], fnames[k])
+ReservedClash(fnames) ==                    \* a fixed layer's name contains the reserved attribute name:
+    \E k \in 1..Len(fnames) : HasSub(fnames[k], RES)      \* SuperNet(...) rejects the model (ValueError)
+
+FixedNames(net) == [k \in 1..Len(net.fixedl) |-> net.fixedl[k].name]
+
+\* what the top-level loop of _get_single_cost charges under full_cost, per naming rule
+FixedChargedCost(impl, metric, net, internals) ==
+    SumIdx([k \in 1..Len(net.fixedl) |->
+              IF Inside(impl, net.names, internals, net.fixedl[k].name) THEN 0
+              ELSE LayerCost(metric, net.fixedl[k])], Len(net.fixedl))
+
+\* design level: names of the leaf layers inside the branches of a block
+Digit(i) == <<"0","1","2","3","4","5","6","7","8","9">>[i + 1]
+NumStr(i) == IF i < 10 THEN <<Digit(i)>> ELSE <<Digit(i \div 10), Digit(i % 10)>>
+LeafNames(k) == CASE k = "layer" -> {<<>>}
+                  [] k = "seq"   -> {<<DOT,"0">>, <<DOT,"3">>}
+                  [] k = "ubm"   -> {<<DOT,"c","o","n","v","1">>, <<DOT,"c","o","n","v","2">>}
+                  [] k = "ubf"   -> {<<DOT,"c","o","n","v">>}
+                  [] k = "id"    -> {<<>>}
+                  [] k = "ubr"   -> {<<DOT,"c">>}
+InternalNames(net) ==
+    UNION {UNION {{net.names[b] \o <<DOT>> \o RES \o <<DOT>> \o NumStr(i - 1) \o lf :
+                        lf \in LeafNames(net.blocks[b].kinds[i])} : i \in 1..NBr(net.blocks[b])}
+              : b \in 1..NB(net)}
+
+\* name alphabets of the design-level families (block names / names of the fixed layers, in role order:
+\* stem, batch-norm, one 1x1 conv per block, head, classifier, then extra 1x1 convs)
+BlockNamePool ==
+    {<<"c","1">>, <<"c","2">>, <<"f",DOT,"1">>, <<"g",DOT,"c","1">>}
+CollidingFixedNames ==
+    << <<"c">>,                       \* a PREFIX of the block names c1, c2
+       <<"f",DOT,"0">>,
+       <<"c","1","0">>, <<"c","2","_","p">>,
+       <<"f",DOT,"1","0">>, <<"g",DOT,"c","1","0">>,
+       <<"c","1","_","p","w">>, <<"f",DOT,"1","1">>, <<"h",DOT,"c","1">>,
+       <<"h",DOT,"c","o","n","v","1">>, <<"h",DOT,"0">>, <<"h",DOT,"c">>,
+       <<"s","n","_","h">>, <<"k",DOT,"d","s","n","_","c">> >>
+PlainBlockName(b) == <<"b", Digit(b - 1)>>
+PlainFixedNames(nb) ==
+    << <<"s","t","e","m">>, <<"b","n","0">> >> \o [b \in 1..nb |-> <<"m","i","d", Digit(b - 1)>>]
+    \o << <<"h","e","a","d">>, <<"f","c">> >>
+
+(***************************************************************************)
 (* Design-level cost table derived from the kinds: the layers a branch      *)
 (* invokes (in order), abstract parameter counts that depend on the         *)
 (* position so that no two branches cost the same by accident, and the      *)
@@ -215,8 +293,18 @@ AbstractCT(b, skel) ==                 \* skel = [kinds, uses, pool]
              leafs |-> NLeaf(skel.kinds[i]),
              reuse |-> skel.kinds[i] = "ubr"]]
 
+AbstractFixed(fnames) ==                \* abstract costs: position dependent, the batch-norm costs nothing
+    [k \in 1..Len(fnames) |-> [name |-> fnames[k],
+                               par |-> IF k = 2 THEN 0 ELSE 1 + (k % 4),
+                               ops |-> IF k = 2 THEN 0 ELSE 4 * (1 + (k % 4))]]
+
 WithCT(skel) ==                        \* skeleton of a network -> network with cost tables
-    [gumbel |-> skel.gumbel, hard0 |-> skel.hard0, fixed |-> [par |-> 7, ops |-> 28],
+    [gumbel |-> skel.gumbel, hard0 |-> skel.hard0,
+     \* skel.naming = <<>> : plain names;  otherwise the chosen block names, the fixed layers then
+     \* carry the colliding names
+     names  |-> IF skel.naming = <<>> THEN [b \in 1..Len(skel.blocks) |-> PlainBlockName(b)] ELSE skel.naming,
+     fixedl |-> AbstractFixed(IF skel.naming = <<>> THEN PlainFixedNames(Len(skel.blocks))
+                              ELSE CollidingFixedNames),
      blocks |-> [b \in 1..Len(skel.blocks) |->
                     [kinds |-> skel.blocks[b].kinds, uses |-> skel.blocks[b].uses,
                      pool |-> skel.blocks[b].pool, ct |-> AbstractCT(b, skel.blocks[b])]]]
